@@ -43,6 +43,34 @@ CHECKS["C01"] = dict(
          "Error replies compared by class; INCRBYFLOAT arithmetic taken from the implementation (checker mode).",
 )
 
+CHECKS["C03"] = dict(
+    category="proof", design_ref="DESIGN.md §6 C03", engine="serve",
+    technique="Lean 4 theorems (decoder inverts reply encoder; one reply per command in order on the connection-loop model) + differential correspondence on raw reply byte streams",
+    text="Resp.decode_encode/decodeList_encode: an independent RESP2 decoder inverts the reply encoder for every reply (nested arrays, arbitrary bulk bytes). "
+         "Exec.one_reply_per_command, replies_in_order, nothing_after_error: the model of Manager.Handle writes exactly one reply per array command, in "
+         "order, and executes nothing after a protocol error. The raw bytes Manager.Handle writes for generated multi-connection pipelines are decoded by "
+         "that verified decoder (all bytes consumed) and compared value by value with the model; the exec engine does the same for every executor reply.",
+    note="Trusted: Lean kernel, harness (net.Pipe, sentinel PING framing), driver. Partial: WF of every executor's reply is enforced by the decoder on "
+         "generated inputs rather than proved for the whole command table.",
+)
+CHECKS["C19"] = dict(
+    category="proof", design_ref="DESIGN.md §6 C19", engine="serve",
+    technique="Lean 4 theorems (history-level exactly-once delivery; subscription table refinement) + differential correspondence of pushes/counts; concurrency explored, not proved",
+    text="PubSub.delivery_exact/publish_count: for every operation sequence each connection receives exactly the messages published while it was subscribed, "
+         "once, in order, and PUBLISH counts them. Exec.subs_subscribe/subs_disconnect/publish_delivers/targets_once/subs_nodup tie the executable "
+         "connection-layer model to that abstract table. Sessions of subscribers, publishers and disconnects against Manager.Handle are compared byte for "
+         "byte (pushes drained per connection, counts) with the model.",
+    note="Partial: goroutine interleavings of Send/Subscribe and TCP back-pressure are runtime behaviour outside the model. Trusted: Lean kernel, harness, driver.",
+)
+CHECKS["C20"] = dict(
+    category="proof", design_ref="DESIGN.md §6 C20", engine="serve",
+    technique="Lean 4 theorems on the connection-layer model (SELECT acceptance, per-connection selection, database isolation) + differential correspondence over several connections",
+    text="Exec.select_accepts_exactly, select_reject_nochange, selection_is_per_connection, isolation, reply_independent_of_other_dbs are proved for the "
+         "function the driver runs (Server.execOn), for every argument, database count and connection; interleavings are sequences of execOn steps. "
+         "SELECT-heavy sessions over 1-4 connections and 1/2/16 databases against Manager.Handle are compared with the model.",
+    note="Trusted: Lean kernel, harness, driver; strconv.Atoi mirrored by the model's integer parser. Cluster-mode SELECT goes through the replicated log and is not covered here.",
+)
+
 NOT_YET = "check not built yet in this round; see DESIGN.md §8"
 NOT_APPLICABLE = {}
 
